@@ -322,6 +322,39 @@ def r08_7(run):
                    "tracker entries removed only by the release function" if ok else "tracker entry dropped outside the release function")
 
 
+def r08_9(run):
+    """release_writeability_lock_on_op is invoked directly only from the exception handler of the function that took the locks;
+    everywhere else it runs as a weakref.finalize callback (exactly once per op)"""
+    fx = facts(run)
+    n = 0
+    for fi in run.project.all_functions():
+        for c in calls_named(fi.node, "release_writeability_lock_on_op"):
+            n += 1
+            p = getattr(c, "_parent", None)
+            in_handler = False
+            while p is not None and p is not fi.node:
+                if isinstance(p, ast.ExceptHandler):
+                    in_handler = True
+                p = getattr(p, "_parent", None)
+            takes = bool(calls_named(fi.node, "lock_arr_writeability"))
+            ok = in_handler and takes
+            run.ob("R08.9", loc(fi, c), fi.short, "direct call of release_writeability_lock_on_op", ok,
+                   "inside the except-handler of the function that acquired the locks" if ok else
+                   "locks are released eagerly outside the acquiring function's error path: the op's finalizer releases them a second time, "
+                   "so arrays shared with another live graph become writeable")
+    run.count("direct release calls", n)
+    # exactly once: in _op no path passes two release/finalize nodes of the same collection
+    fi = anchor_func(run, OP)
+    from .util import op_instance_call
+    cfg = build_cfg(run, fi, switch_assumptions(fi, track=True, memguard=True), extra_raise=lambda c: op_instance_call(run, fi, c))
+    _, coll, _ = acquisition(run, fi)
+    rel = sorted(_release_nodes(cfg, fi.node, name_aliases(fi.node, coll)))
+    bad = [(a, b) for a in rel for b in rel if a != b and b in cfg.reachable_from(a)]
+    run.ob("R08.9", loc(fi, cfg.stmt[bad[0][0]]) if bad else loc(fi, fi.node), fi.short, "no path releases / registers the finalizer for the locked collection twice", not bad,
+           f"the {len(rel)} release/finalize nodes are pairwise unreachable from each other" if not bad else
+           f"a path passes `{norm(cfg.stmt[bad[0][0]])[:40]}` and then `{norm(cfg.stmt[bad[0][1]])[:40]}`: the lock count of each input drops twice")
+
+
 def r08_8(run):
     """force_lock bypasses the 'natively read-only arrays are left alone' rule: only an op's own output may be force-locked"""
     fx = facts(run)
@@ -477,6 +510,7 @@ def check(run):
     run.rule("R08.3", "the writeable flag is written only in lock_management or on a private copy", floor=3)
     run.rule("R08.4", "unique_arrs_and_bases yields a base before its view, and every unseen array/base unconditionally", floor=3)
     run.rule("R08.7", "the waiting-view set is wiped only when _array_tracker is empty; tracker entries are removed only by the release function", floor=2)
+    run.rule("R08.9", "release_writeability_lock_on_op is called directly only on the acquiring function's error path; never twice on a path", floor=2)
     run.rule("R08.8", "force_lock=True only for an op's own output array", floor=1)
     run.rule("R08.5", "lock counter typestate: ++ only in lock, --/del only in release, writeable=True only for the last holder", floor=6)
     run.rule("R08.6", "the op's output array is locked on every tracked, guarded return", floor=1)
@@ -492,6 +526,7 @@ def check(run):
     r08_5(run)
     r08_7(run)
     r08_8(run)
+    r08_9(run)
     r08_6(run)
     run.assume("may-raise = explicit `raise` (not `# pragma: no cover`) reachable through resolved repo calls; NumPy/builtin calls "
                "outside the guarded forward call are assumed not to raise")
